@@ -323,17 +323,24 @@ def option_reads(prog):
     function from something that is not the parsed options) is skipped."""
     res = {}
     for mod, qual, fn in prog.all_funcs():
-        local = any(isinstance(n, ast.Assign) and any(
-            isinstance(t, ast.Name) and t.id == 'options' for t in n.targets)
-            and not (isinstance(n.value, ast.Call) and (call_name(n.value) or '').endswith(
-                ('loadOptions', 'parse_args')))
-            for n in walk_no_nested(fn))
+        # locals holding the parsed options: assigned from loadOptions()/parse_args()
+        holders = set()
+        shadowed = set()
+        for n in walk_no_nested(fn):
+            if isinstance(n, ast.Assign):
+                from_parser = isinstance(n.value, ast.Call) and (call_name(n.value) or '').endswith(
+                    ('loadOptions', 'parse_args'))
+                for t in n.targets:
+                    if isinstance(t, ast.Name):
+                        (holders if from_parser else shadowed).add(t.id)
         for node in walk_no_nested(fn):
             if isinstance(node, ast.Attribute) and isinstance(node.ctx, ast.Load):
                 base = norm(node.value)
-                if base == 'options' and local:
+                if base in holders and base not in shadowed:
+                    res.setdefault(node.attr, []).append((mod, qual, node))
+                elif base == 'options' and base in shadowed and base not in holders:
                     continue
-                if base == 'options' or base.endswith('.options'):
+                elif base == 'options' or base.endswith('.options'):
                     res.setdefault(node.attr, []).append((mod, qual, node))
     return res
 
